@@ -392,6 +392,8 @@ def profiles(tier, light=False):
                           maxcap=2, maxdepth=4, maxout=2, nparts=1, er=0.001))
     if light and tier == "quick":
         P = [dict(p, altvals=p["altvals"][:2] if len(p["fp"]) > 3 and p["bs"] == 1 else p["altvals"]) for p in P]
+    if light and tier == "thorough":     # cross-cutting properties: the two smallest bucket sizes, one depth less
+        P = [dict(p, maxdepth=p["maxdepth"] - 1) for p in P if p["bs"] <= 2]
     return P
 
 
